@@ -173,9 +173,16 @@ def offenders(pid):
     return out
 
 
-SOURCE_LEVEL = ("theories/Properties/SourceLevel.v", ["SRC_source_is_highwayhash", "SRC_source_streaming_invariance"])
-# theorems about the interpreted source text as a whole (new; append*; finalize = HighwayHash, Ok in every profile)
-EXTRA_THEOREMS = {"C01": [SOURCE_LEVEL], "C05": [SOURCE_LEVEL], "C08": [SOURCE_LEVEL]}
+SL = "theories/Properties/SourceLevel.v"
+# theorems about the interpreted source text as a whole (sessions of new / append / finalize / checkpoint / from_checkpoint)
+EXTRA_THEOREMS = {
+    "C01": [(SL, ["SRC_source_is_highwayhash", "SRC_source_continue"])],
+    "C05": [(SL, ["SRC_source_streaming_invariance", "SRC_source_continue"])],
+    "C06": [(SL, ["SRC_source_checkpoint_transparent", "SRC_source_restore_total"])],
+    "C08": [(SL, ["SRC_source_is_highwayhash", "SRC_source_continue", "SRC_source_restore_total", "SRC_source_checkpoint_canonical"])],
+    "C11": [(SL, ["SRC_source_restore_total"])],
+    "C14": [(SL, ["SRC_source_checkpoint_canonical"])],
+}
 
 
 def check(ctx, pid):
